@@ -112,13 +112,14 @@ def nEsc : Text := [101, 115, 99]   -- `esc`
 def nBlkBoom : Text := [98, 108, 107, 95, 98, 111, 111, 109]   -- `blk_boom`
 def nSub : Text := [115, 117, 98]   -- `sub`
 def nUnsub : Text := [117, 110, 115, 117, 98]   -- `unsub`
+def nBadSer : Text := [98, 97, 100, 115, 101, 114]   -- `badser` (its result cannot be serialised: the library answers Internal error)
 def nRpcE : Text := [114, 112, 99, 46, 101]   -- `rpc.e` (a registered method whose name starts with the reserved-looking prefix)
 
 /-- the harness registry: method name → kind -/
 def kindOfMethod (m : Text) : Option MKind :=
   if m == nSub then some .subscribe
   else if m == nUnsub then some .unsubscribe
-  else if m == nEcho || m == nSum || m == nFail || m == nStr || m == nEsc || m == nRpcE then some .sync
+  else if m == nEcho || m == nSum || m == nFail || m == nStr || m == nEsc || m == nRpcE || m == nBadSer then some .sync
   else if m == nAEcho || m == nASum then some .async
   else if m == nBlkEcho || m == nBlkBoom then some .blocking
   else none
@@ -132,6 +133,7 @@ def outcomeOf (m : Text) (p : Option Text) : Outcome :=
   else if m == nEsc then .result (encodeString escString)
   else if m == nBlkBoom then .panic
   else if m == nUnsub then .result tFalse
+  else if m == nBadSer then .error (errNoData INTERNAL_ERROR_CODE INTERNAL_ERROR_MSG)
   else .result []
 
 /-- kind and outcome of a registered method for given params; `none` = not registered -/
